@@ -53,6 +53,56 @@ def parseOp (t : String) : Option Op :=
 
 def showList (l : List Nat) : String := if l.isEmpty then "." else ".".intercalate (l.map toString)
 
+/-! respawn: `respawn fixed=<b> start=<b> <stage> / <stage> / ...`, a stage = builder-call tokens followed by the five
+    fault fields of that round's spawn -/
+
+def parseStdio (s : String) : Option Stdio :=
+  if s == "I" then some .inherit else if s == "n" then some .null else if s == "p" then some .makePipe
+  else if s == "r" then some .rawFd else none
+
+def parseBOp (t : String) : Option BOp :=
+  if t == "cwd" then some .cwd else if t == "uid" then some .uid else if t == "gid" then some .gid
+  else if t == "pg" then some .pgroup else if t == "cl" then some .preExec
+  else match fld "si=" t, fld "so=" t, fld "se=" t with
+    | some c, _, _ => (parseStdio c).map BOp.stdin
+    | _, some c, _ => (parseStdio c).map BOp.stdout
+    | _, _, some c => (parseStdio c).map BOp.stderr
+    | _, _, _ => (parseOp t).map BOp.cmd
+
+def parseStage (ws : List String) : Option Stage :=
+  if ws.length < 5 then none else
+  match ws.drop (ws.length - 5) with
+  | [before, eintr, readerr, waiterr, cf] =>
+    match (ws.take (ws.length - 5)).mapM parseBOp, fld "before=" before >>= optNat, fld "eintr=" eintr >>= String.toNat?,
+        fld "readerr=" readerr >>= optNat, fld "waiterr=" waiterr >>= optNat, fld "cf=" cf >>= parseCF with
+    | some ops, some before, some eintr, some readerr, some waiterr, some cf => some ⟨ops, ⟨before, eintr, readerr, waiterr⟩, cf⟩
+    | _, _, _, _, _, _ => none
+  | _ => none
+
+def splitStages (ws : List String) : List (List String) :=
+  ws.foldr (fun w acc => if w == "/" then [] :: acc else match acc with
+    | [] => [[w]]
+    | h :: t => (w :: h) :: t) [[]]
+
+def showStdio : Stdio → String
+  | .inherit => "i" | .null => "n" | .makePipe => "p" | .rawFd => "r"
+
+def showImage : Option Image → String
+  | none => "io=- argv=- envp=- set=-"
+  | some i =>
+    let envp := match i.envp with
+      | none => "inherit"
+      | some p => showList p
+    let b := fun (x : Bool) => if x then "1" else "0"
+    s!"io={"".intercalate (i.stdio.map showStdio)} argv={showList i.argv} envp={envp} set={b i.cwd}{b i.uid}{b i.gid}{b i.pgroup}.{i.closures}"
+
+def showPipes : Option (List Bool) → String
+  | none => "-"
+  | some l => "".intercalate (l.map fun x => if x then "1" else "0")
+
+def showSpawned (o : Spawned) : String :=
+  s!"{showParent o.run.parent} child={showChild o.run.child} returners={(returners o.run).length} {showImage o.image} pipes={showPipes o.pipes} ncl={o.closuresCalled}"
+
 def step (_ : Unit) (line : String) : Unit × String :=
   match Drv.words line with
   | ["spawn", fx, s, cwd, uid, gid, pg, cl, before, eintr, readerr, waiterr, cf] =>
@@ -63,7 +113,10 @@ def step (_ : Unit) (line : String) : Unit × String :=
       let c : Config := ⟨st, cwd, uid, gid, pg, cl⟩
       let r := spawn fixed c ⟨before, eintr, readerr, waiterr⟩ cf
       let steps := ",".intercalate ((childSteps c).map showStep)
-      ((), s!"{showParent r.parent} child={showChild r.child} returners={(returners r).length} reads={reads ⟨before, eintr, readerr, waiterr⟩} steps={steps}")
+      let ncl := match r.child with
+        | none => 0
+        | some _ => closuresRun (childSteps c) cf
+      ((), s!"{showParent r.parent} child={showChild r.child} returners={(returners r).length} reads={reads ⟨before, eintr, readerr, waiterr⟩} steps={steps} ncl={ncl}")
     | _, _, _, _, _, _, _, _, _, _, _, _ => ((), "bad-op")
   | "builder" :: fx :: st :: ops =>
     match fld "fixed=" fx >>= bit, fld "start=" st >>= bit, ops.mapM parseOp with
@@ -76,6 +129,14 @@ def step (_ : Unit) (line : String) : Unit × String :=
           | .none => "none"
           | .provided v p => s!"provided:{showList v}/{showList p}"
         ((), s!"args={showList c.args} argv={showList c.argv} env={e}")
+    | _, _, _ => ((), "bad-op")
+  | "respawn" :: fx :: st :: rest =>
+    match fld "fixed=" fx >>= bit, fld "start=" st >>= bit, (splitStages rest).mapM parseStage with
+    | some fixed, some start, some stages =>
+      if stages.isEmpty then ((), "bad-op") else
+      match runStages fixed start (newB start 0) stages with
+      | none => ((), "panic")
+      | some outs => ((), " / ".intercalate (outs.map showSpawned))
     | _, _, _ => ((), "bad-op")
   | _ => ((), "bad-op")
 
